@@ -55,14 +55,17 @@ FirstSeq(G, nul, kids, i) ==
 
 RECURSIVE Reach(_,_,_)
 Reach(edges, S, n) == IF n = 0 THEN S ELSE Reach(edges, S \cup UNION {edges[v] : v \in S}, n-1)
+(* a rule name may be defined more than once: the LAST definition is the rule (references resolve to it, the analysis *)
+(* and the generated parser only know it); the earlier ones are dead text                                          *)
+LiveRules(G) == {e \in 1..Len(G.rules) : ~\E e2 \in (e+1)..Len(G.rules) : G.idents[e2] = G.idents[e]}
 MayCycle(G) ==
   LET nul == Nullables(G)
       edges == [i \in 1..Len(G.rules) |-> First(G, nul, G.rules[i])]
-  IN \E i \in 1..Len(G.rules) : i \in Reach(edges, edges[i], Len(G.rules))
+  IN \E i \in LiveRules(G) : i \in Reach(edges, edges[i], Len(G.rules))
 
 (* the semantic witness: PegRef re-enters a rule on some input of the bounded set *)
 CaseFor(G, inp) == [G |-> G, inp |-> inp, opt |-> Cfg.options[1], errblks |-> {}, lower |-> Cfg.lower, uclass |-> Cfg.uclass, entry |-> 1]
-MustWitness(G) == {ii \in 1..Len(Cfg.inputs) : \E e \in 1..Len(G.rules) :
+MustWitness(G) == {ii \in 1..Len(Cfg.inputs) : \E e \in LiveRules(G) :
                      RefRun([CaseFor(G, Cfg.inputs[ii]) EXCEPT !.entry = e]).x.ab = "reentry"}
 
 (* the order in which the repaired ComputeNullables visits the rules of a test group: sorted names, *)
